@@ -100,7 +100,8 @@ struct XSched : Engine {
         static const int triples[][3] = { { 0, 1, 1 }, { 1, 1, 1 }, { 0, 3, 8 }, { 1, 8, 9 }, { 2, 4, 7 }, { 8, 8, 8 }, { 3, 3, 3 }, { 5, 6, 9 } };
         for (auto& t : triples) H.push_back({ { t[0], t[1], t[2] } });
     }
-    std::vector<std::string> stages() override { std::vector<std::string> st = { "bound0", "bound1", "bound2", "bound3" }; if (cfg.thorough()) { st.push_back("bound4"); st.push_back("bound5"); } return st; }
+    std::vector<std::string> stages() override { if (!cfg.opt.count("hang_s")) cfg.opt["hang_s"] = "1200";   // one case = a whole schedule space
+        std::vector<std::string> st = { "bound0", "bound1", "bound2", "bound3" }; if (cfg.thorough()) { st.push_back("bound4"); st.push_back("bound5"); } return st; }
     void enumerate(const std::string& stage) override {
         build_harnesses(); int bound = atoi(stage.c_str() + 5);
         for (size_t h = 0; h < H.size(); h++) { if (H[h].progs.size() == 3 && bound > (cfg.thorough() ? 3 : 2)) continue; if (!pool_take()) continue; static Case c; c.kind = 0; c.iv[1] = (int64_t)h; c.iv[2] = bound; c.len = 0; pool_run(c); }
@@ -154,7 +155,8 @@ struct XSched : Engine {
         std::set<uintptr_t> conflicts; for (auto a : R.rel) if (!E.count(a)) conflicts.insert(a);
         if (!conflicts.empty()) { char b[64]; snprintf(b, sizeof b, "%zu byte(s), first at static offset 0x%lx", conflicts.size(), (unsigned long)(*conflicts.begin() - (uintptr_t)&__data_start)); violation("sched:conflicting-static-access", hname + ": threads working on private data access the same static storage with at least one write (" + b + ")"); ctr().extra[3] += conflicts.size(); }
         // phase 2: DFS over schedules, bounded by preemptions
-        uint64_t schedules = 0, maxpts = 0; const uint64_t cap = (uint64_t)cfg.optl("max_schedules", 400000); bool capped = false; int reported = 0;
+        // a harness that already shows a conflicting static access is a violation; its (then much larger) schedule space is only sampled up to a small cap
+        uint64_t schedules = 0, maxpts = 0; const uint64_t cap = conflicts.empty() ? (uint64_t)cfg.optl("max_schedules", 150000) : 3000; bool capped = false; int reported = 0;
         std::set<std::string> outcomes;
         std::function<void(const std::vector<int>&)> explore = [&](const std::vector<int>& prefix) {
             if (schedules >= cap) { capped = true; return; }
@@ -176,7 +178,7 @@ struct XSched : Engine {
         ctr().extra[2]++; ctr().extra[1] += R.npoints_total; R.npoints_total = 0; if (maxpts > ctr().extra[4]) ctr().extra[4] = maxpts; if (!capped) ctr().extra[5]++;
         ctr().compared += schedules; if (schedules > 1) ctr().nontrivial++;
         note_outcome(outcomes.size() | (uint64_t)hi << 8);
-        if (capped) violation("harness:schedule-cap", hname + ": schedule cap reached at bound " + std::to_string(bound) + " (not exhaustive)");
+        if (capped && conflicts.empty()) violation("harness:schedule-cap", hname + ": schedule cap reached at bound " + std::to_string(bound) + " (not exhaustive)");
         if (vb) printf("  %s bound=%d schedules=%llu max points=%llu distinct outcome vectors=%zu relevant static bytes=%zu\n", hname.c_str(), bound, (unsigned long long)schedules, (unsigned long long)maxpts, outcomes.size(), R.rel.size());
     }
     std::string describe(const Case& c) override { build_harnesses(); size_t hi = (size_t)c.iv[1]; if (hi >= H.size()) return "?"; std::string s = "threads{"; for (size_t t = 0; t < H[hi].progs.size(); t++) { if (t) s += " || "; s += progs::all()[H[hi].progs[t]].name; } return s + "} preemption bound " + std::to_string(c.iv[2]); }
